@@ -425,3 +425,81 @@ func init() {
 		return &CaseTag{Name: strN(v % 6), Note: strN((v / 2) % 3), Code: strN(v % 2)}
 	}, []string{"", "Valid", "VALID"}})
 }
+
+// Tree / Branch and Org / Dep: pairs of struct types that refer to each other (a cycle in the TYPE graph; the values are
+// acyclic). Whatever the library derives per type while walking such a graph (a "can this type fail" flag, a "recursive" mark)
+// must not depend on which of the two it met first: both are roots of calls here, in either order, under two tag names. In Org
+// values one Dep is reachable through two paths (Main and Extra[0] are the same pointer). Seeded C12za cached the intermediate
+// answer for the inner type of a cycle as final; seeded C08za flagged only the type at which its walk closed the cycle.
+type Tree struct {
+	Branches []*Branch `valid:"exist" v2:"exist"`
+	Name     string    `valid:"required" v2:"to=1~3"`
+}
+
+type Branch struct {
+	Owner *Tree `valid:"exist" v2:"exist"`
+}
+
+type Org struct {
+	Main  *Dep   `valid:"exist" v2:"exist"`
+	Extra []*Dep `valid:"exist" v2:"exist"`
+	Name  string `valid:"required" v2:"le=2"`
+}
+
+type Dep struct {
+	Title string `valid:"required" v2:"to=2~4"`
+	Org   *Org   `valid:"exist" v2:"exist"`
+}
+
+func mkTree(v int) interface{} {
+	t := &Tree{Name: strN(v % 3)}
+	for i := 0; i < v%4; i++ {
+		t.Branches = append(t.Branches, &Branch{Owner: &Tree{Name: strN((v + i) % 2)}})
+	}
+	return t
+}
+
+func mkBranch(v int) interface{} {
+	b := &Branch{}
+	if v%5 != 0 {
+		b.Owner = &Tree{Name: strN(v % 2)}
+		if v%3 == 0 {
+			b.Owner.Branches = []*Branch{{Owner: &Tree{Name: strN((v / 3) % 2)}}}
+		}
+	}
+	return b
+}
+
+func mkOrg(v int) interface{} {
+	o := &Org{Name: strN(v % 4)}
+	if v%6 != 0 {
+		o.Main = &Dep{Title: strN(v % 3)}
+	}
+	if v%2 == 0 && o.Main != nil {
+		o.Extra = append(o.Extra, o.Main) // the same Dep through two paths
+	}
+	for i := 0; i < v%3; i++ {
+		o.Extra = append(o.Extra, &Dep{Title: strN((v + i) % 5)})
+	}
+	return o
+}
+
+func mkDep(v int) interface{} {
+	d := &Dep{Title: strN(v % 4)}
+	if v%3 != 0 {
+		d.Org = &Org{Name: strN(v % 2)}
+		if v%2 == 0 {
+			shared := &Dep{Title: strN((v / 2) % 2)}
+			d.Org.Main, d.Org.Extra = shared, []*Dep{shared}
+		}
+	}
+	return d
+}
+
+func init() {
+	statics = append(statics,
+		typeInfo{"Tree", mkTree, []string{"", "v2"}},
+		typeInfo{"Branch", mkBranch, []string{"", "v2"}},
+		typeInfo{"Org", mkOrg, []string{"", "v2"}},
+		typeInfo{"Dep", mkDep, []string{"", "v2"}})
+}
